@@ -279,6 +279,43 @@ where
         "operators on individuals disagree with {want:?}"
     );
     ensure!(std::cmp::max(&ia, &ib).test_results.cmp(&std::cmp::min(&ia, &ib).test_results) != Ordering::Less, "EcIndividual/max-min", "max < min");
+    // copies: clone() and clone_from() (into a target that already holds other results, of any length) give
+    // collections and individuals whose results and total are the source's
+    for (src, other, s_src) in [(&ta, &tb, sa), (&tb, &ta, sb)] {
+        let cloned = src.clone();
+        let mut into = other.clone();
+        into.clone_from(src);
+        let mut into_spacious = other.clone();
+        into_spacious.results.reserve(src.results.len() + 8);
+        into_spacious.clone_from(src);
+        for (how, copy) in [("clone()", &cloned), ("clone_from() into another collection", &into), ("clone_from() into a collection with spare capacity", &into_spacious)] {
+            ensure!(
+                copy.results == src.results && copy.total_result == mk(s_src as i64),
+                format!("{name}/copy-differs"),
+                "{how}: results {:?} with total {:?}; the source has {:?} with total {s_src}",
+                copy.results,
+                copy.total_result,
+                src.results
+            );
+        }
+        let mut ind = EcIndividual::new(gb, other.clone());
+        ind.clone_from(&EcIndividual::new(ga, src.clone()));
+        ensure!(
+            ind.genome == ga && ind.test_results.results == src.results && ind.test_results.total_result == mk(s_src as i64),
+            "EcIndividual/copy-differs",
+            "clone_from(): the individual carries genome {} and total {:?}; the source has genome {ga} and total {s_src}",
+            ind.genome,
+            ind.test_results.total_result
+        );
+        let mut pop = vec![EcIndividual::new(gb, other.clone()), EcIndividual::new(gb, other.clone())];
+        pop.clone_from(&vec![EcIndividual::new(ga, src.clone())]);
+        ensure!(
+            pop.len() == 1 && pop[0].test_results.total_result == mk(s_src as i64) && pop[0].test_results.results == src.results,
+            "EcIndividual/copy-differs",
+            "Vec::clone_from() of a population: total {:?}, the source has {s_src}",
+            pop.first().map(|i| i.test_results.total_result)
+        );
+    }
     Ok(())
 }
 
